@@ -30,7 +30,19 @@ def programs(out, tier, prop, versions, per_version, rng, want_generated=True, l
             shapes, r3 = inputs.string_literals(sc.sub('l'), 3 if tier == 'quick' else 4)
             out.add('states', r3.distinct)
             out.add('transitions', r3.generated)
+            # layout strings: all of <= 4 symbols (<= 5 in thorough) + a sample of the next length
+            nl = 4 if tier == 'quick' else 5
+            lay, r4 = inputs.tlc_strings(sc.sub('y'), nl + 1, inputs.LAYOUT_ALPHABET)
+            out.add('states', r4.distinct)
+            out.add('transitions', r4.generated)
+            symlen = __import__('re').compile('|'.join(__import__('re').escape(a) for a in
+                                                       sorted(inputs.LAYOUT_ALPHABET, key=len, reverse=True)))
+            short = [t for t in lay if len(symlen.findall(t)) <= nl]
+            longer_lay = [t for t in lay if len(symlen.findall(t)) > nl]
+            lay = short + rng.sample(longer_lay, min(len(longer_lay), 6000 if tier == 'quick' else 60000))
+            out.cov(layout_strings=len(lay), layout_exhaustive_upto=nl)
             lits = ['x = %s\n' % s for s in nums if s] + ['x = %s\n' % s for s in strs if s] + shapes
+            lits += [t if t.endswith('\n') else t + '\n' for t in lay if t]
             for v in versions:
                 for t in inputs.escape_literals():
                     progs[v].append((t, 'escape-literals'))
